@@ -162,9 +162,11 @@ def hugeAlloc (b : List UInt8) : Bool :=
     let p ← str p
     let fl ← g16 (p + 10)
     if fl % 2 = 0 then none
-    let hi ← g16 (p + 12)
-    let lo ← g16 (p + 14)
-    some (hi * 65536 + lo)
+    -- `nattrs` itself lies (partly) behind the record: the C reads it from whatever follows (the guard page in the engine, the sentinel
+    -- tail in the translated run) - an arbitrary count: treated like a count larger than the record
+    match g16 (p + 12), g16 (p + 14) with
+    | some hi, some lo => some (hi * 65536 + lo)
+    | _, _ => some (b.length + 1)
   match na with
   | some na => na < 2147483648 && na > b.length
   | none => false
